@@ -93,4 +93,29 @@ PROPS = {
                 "language-included in the input (exact reference) and non-empty whenever the input is. Non-trivial: non-empty language and (shallowest found witness of depth >= 3 or an unproductive final state).",
         "assumptions": COMMON_ASSUMPTIONS,
     },
+    "C09": {
+        "harness": "c09",
+        "quick": {"workers": 8, "cases": 3000, "size": 24},
+        "thorough": {"workers": 16, "cases": 50000, "size": 34},
+        "min_nontrivial_frac": 0.2,
+        "min_tag_frac": {"verdict:included": 0.15, "verdict:not-included": 0.15},
+        "rule": "rapidcheck generates 8-integer records; a pure decoder builds NFA pairs over <= 3 symbols (several start states, start states that are final, unreachable/dead states, symbols present in one operand only) "
+                "by strategies indep/superset/ablate/split/symmiss/degenerate with chosen state numbers; the antichain, congruence-depth and congruence-breadth selections are run through the CLI protocol "
+                "(SanitizeAutsForInclusion, then CheckInclusion), the antichain selection and the default overload also on unprepared operands; every verdict is compared with an exact reference "
+                "(pair exploration (q,S) over the subset construction of B, witness word re-validated). A watchdog turns a call that does not return on these tiny inputs into a no-verdict violation (10 s + 2 x 45 s). "
+                "Non-trivial: both languages contain a word of length >= 2 and some reached macro-state of B has >= 2 states. Distinct: hash of the case text.",
+        "assumptions": COMMON_ASSUMPTIONS + ["congruence selections are only called on operands prepared by SanitizeAutsForInclusion (the dispatcher forms a disjoint union of its operands)",
+                                              "SIM / EQUIV selections are not claimed by the property (FA ComputeSimulation is unusable) and are not exercised"],
+    },
+    "C10": {
+        "harness": "c10",
+        "quick": {"workers": 8, "cases": 2000, "size": 22},
+        "thorough": {"workers": 16, "cases": 20000, "size": 32},
+        "min_nontrivial_frac": 0.3,
+        "rule": "NFA pairs as for C09 (eps-acceptance, several start states, product states with exactly one initial component, dead/unreachable parts); results of Union, UnionDisjointStates, Intersection, "
+                "Reverse (also twice), RemoveUnreachableStates, RemoveUselessStates are read through DumpToString with the harness' own reader and compared by language with reference union/product/mirror/"
+                "identity (exact subset-construction inclusion both ways); GetCandidateTree must be a sub-language, non-empty whenever the input is; operands are re-read after the calls. "
+                "Non-trivial: an operand accepts eps or has >= 2 start states, and not both languages are empty. Distinct: hash of the case text.",
+        "assumptions": COMMON_ASSUMPTIONS,
+    },
 }
